@@ -442,6 +442,7 @@ def main_check(prop, tier, only_lanes=None, keep=False):
                per_lane={}, viols_suppressed=0)
     all_viols = list(build_viol)
     samples = []
+    all_events = []
     for (lane, s), r in sorted(results.items()):
         pl = agg["per_lane"].setdefault(lane, dict(shards=0, cases=0, evals=0, deaths=0, wall_s=0.0, violations=0))
         pl["shards"] += 1
@@ -483,10 +484,20 @@ def main_check(prop, tier, only_lanes=None, keep=False):
                                   tags=[], case=c, notes=r.notes.get(d["idx"], []),
                                   reproduced=d.get("reproduced")))
         for e in r.events:
-            if len(samples) < 6:
-                c = r.cases.get(e["idx"], {})
-                samples.append(dict(lane=lane, case=dict(ty=c.get("ty"), desc=c.get("desc")),
-                                    op=e["op"], args=e["args"], got=e["got"]))
+            c = r.cases.get(e["idx"], {})
+            all_events.append(dict(lane=lane, case=dict(ty=c.get("ty"), desc=c.get("desc")),
+                                   op=e["op"], args=e["args"], got=e["got"]))
+
+    # samples: a handful of recorded operations, preferring distinct operations and informative ones
+    boring = {"len", "is_empty", "sigma", "build", "n_ones", "n_zeros", "count_ones", "count_zeros"}
+    seen_ops = set()
+    for e in sorted(all_events, key=lambda e: (e["op"] in boring, e["lane"] != "rel")):
+        if e["op"] in seen_ops and len(seen_ops) < 6:
+            continue
+        seen_ops.add(e["op"])
+        samples.append(e)
+        if len(samples) >= 8:
+            break
 
     # post-processing hooks of the property (cross-lane comparisons etc.)
     extra_viols, extra_cov = plan.post_process(prop, tier, results, agg, rundir)
